@@ -173,6 +173,36 @@ Proof.
 Qed.
 Print Assumptions C08_prefix_refuted.
 
+(* "A file that is one node already recorded for this platform need not be walked again":
+   both commands use -include f.h, and f.h is the single line #define X; the second command's
+   fresh Platform never sees X. *)
+Definition ex_ka : entry := {| e_file := ["src"; "a.c"]; e_dirs := []; e_defs := []; e_incs := [["f.h"]] |}.
+Definition ex_kb : entry := {| e_file := ["src"; "b.c"]; e_dirs := []; e_defs := []; e_incs := [["f.h"]] |}.
+Definition ex_fs4 : fsys :=
+  [ (["src"; "a.c"], [(0, KPlain ACode); (1, KPlain AOther)]);
+    (["src"; "b.c"], [(0, KIf (CDefd "X")); (1, KPlain ACode); (2, KEndif)]);
+    (["src"; "f.h"], [(0, KPlain (ADefine "X" VE))]) ].
+Theorem C08_skip_recorded_refuted :
+  exists (fs : fsys) (fuel : nat) (cfg cfg' : config) (a a' b : amap),
+    reordered cfg cfg' /\
+    find_skipping_recorded fs fuel cfg = Ok a /\ find_skipping_recorded fs fuel cfg' = Ok a' /\ ~ same_map a a' /\
+    find_M fs fuel cfg = Ok b /\ ~ same_map a b.
+Proof.
+  exists ex_fs4, 5, [("P", [ex_ka; ex_kb])], [("P", [ex_kb; ex_ka])].
+  eexists. eexists. eexists.
+  split; [exists [("P", [ex_ka; ex_kb])]; split; [apply Permutation_refl|];
+          constructor; [|constructor]; split; [reflexivity|apply perm_swap]|].
+  split; [vm_compute; reflexivity|]. split; [vm_compute; reflexivity|].
+  assert (Hm : forall l, mem_triple ex_t l = false -> ~ In ex_t l).
+  { intros l E H. apply mem_triple_In in H. congruence. }
+  split; [|split; [vm_compute; reflexivity|]].
+  - intros H. refine (Hm _ _ (proj2 (H ex_t) _)); [vm_compute; reflexivity|].
+    apply mem_triple_In. vm_compute. reflexivity.
+  - intros H. refine (Hm _ _ (proj2 (H ex_t) _)); [vm_compute; reflexivity|].
+    apply mem_triple_In. vm_compute. reflexivity.
+Qed.
+Print Assumptions C08_skip_recorded_refuted.
+
 (* non-vacuity: two platforms, three commands sharing a guarded header that defines
    what the other file tests; every command is accepted by the reference
    preprocessor; P uses b.c's conditional code only through its own -D *)
